@@ -470,6 +470,85 @@ static void solid_case(uint64_t idx, void *vctx)
     if (!vf_in_confirm) vf_outcome(vf_mix(h, idx * 53 + (uint64_t)oi));
 }
 
+/* ---------------- indexed sources: the source pixel is its palette entry, a premultiplied a8r8g8b8 value whose alpha is whatever the palette says ----------------
+ * (same judgement as for solid sources; both pipelines, since the palette colour is widened to float like any 8-bit pixel) */
+static void indexed_src_case(uint64_t idx, void *vctx)
+{
+    static const pixman_format_code_t dfm[4] = { PIXMAN_a8r8g8b8, PIXMAN_a2r10g10b10, PIXMAN_rgba_float, PIXMAN_r5g6b5 };
+    static const char *dfn[4] = { "a8r8g8b8", "a2r10g10b10", "rgba_float", "r5g6b5" };
+    int oi = (int)(idx % RC_NOPS); idx /= RC_NOPS; int ai = (int)(idx % 11); idx /= 11; int ci = (int)(idx % 3); idx /= 3; int di = (int)(idx % 4); idx /= 4; int mi = (int)(idx % 3); idx /= 3;
+    int cfg = (idx % 2) ? PH_CFG_GENERAL : PH_CFG_DEFAULT;
+    int op = rc_all_ops[oi];
+    static const pixman_format_code_t ifm[3] = { PIXMAN_c8, PIXMAN_g8, PIXMAN_c4 }; 
+    int fi = ai % 3; ai /= 3;                                                                   /* the 11-way digit carries (format, alpha level): 3 x 3 used, 2 spare */
+    if (ai > 2) return;
+    static const uint8_t alv[3] = { 0x00, 0x80, 0xc1 };
+    unsigned a8v = alv[ai];
+    static const uint8_t cv[3] = { 0x00, 0x60, 0xff };
+    unsigned r8 = cv[ci] < a8v ? cv[ci] : a8v, g8v = a8v / 3, b8 = a8v;                       /* valid premultiplied colour */
+    uint16_t a16 = (uint16_t)(a8v * 0x101), r16 = (uint16_t)(r8 * 0x101), g16 = (uint16_t)(g8v * 0x101), b16 = (uint16_t)(b8 * 0x101);
+    static pixman_indexed_t pal; memset(&pal, 0, sizeof pal);
+    for (int k = 0; k < 256; k++) pal.rgba[k] = 0xff000000u | (unsigned)k * 0x010101u;
+    unsigned index = (unsigned)(3 + ai * 3 + ci); pal.rgba[index] = a8v << 24 | r8 << 16 | g8v << 8 | b8;
+    ph_fmt_t df; ph_fmt_describe(dfm[di], dfn[di], &df);
+    enum { N = 125 };
+    static uint32_t dbuf[N * 4 + 8]; memset(dbuf, 0, sizeof dbuf);
+    static rc_real D[N][4]; static unsigned D8[N][4]; static uint32_t Draw[N];
+    uint64_t nd = fmt_npix(&df); int n = nd < N ? (int)nd : N;
+    for (int i = 0; i < n; i++) { uint32_t raw; float fl[4]; fmt_make_pixel(&df, (uint64_t)i * (nd / n ? nd / n : 1), &raw, fl, D[i], D8[i]); fmt_store(&df, dbuf, i, raw, fl); Draw[i] = raw; }
+    static const uint8_t mv[3] = { 0xff, 0x80, 0x00 };
+    uint8_t mbuf[N + 8]; memset(mbuf, mv[mi], sizeof mbuf);
+    ph_set_cfg(cfg);
+    static uint8_t ibuf[N + 8]; memset(ibuf, ifm[fi] == PIXMAN_c4 ? (int)(index << 4 | index) : (int)index, sizeof ibuf);
+    pixman_image_t *src = pixman_image_create_bits(ifm[fi], n, 1, (uint32_t *)ibuf, N + 3 & ~3), *dst = pixman_image_create_bits(dfm[di], n, 1, dbuf, sizeof dbuf - 32);
+    pixman_image_set_indexed(src, &pal);
+    pixman_image_t *msk = mi ? pixman_image_create_bits(PIXMAN_a8, n, 1, (uint32_t *)mbuf, N + 3 & ~3) : NULL;
+    pixman_image_composite32(op, src, msk, dst, 0, 0, 0, 0, 0, 0, n, 1);
+    vf_count_libcalls(1);
+    pixman_image_unref(src); pixman_image_unref(dst); if (msk) pixman_image_unref(msk);
+    int wide = fmt_is_wide(&df) || !(rc_is_exact_op(op) || (rc_is_sep_blend(op) && !(op == PIXMAN_OP_COLOR_DODGE || op == PIXMAN_OP_COLOR_BURN || op == PIXMAN_OP_SOFT_LIGHT)));
+    /* source as the pipeline sees it */
+    rc_real S[4]; unsigned s8[4] = { a16 >> 8, r16 >> 8, g16 >> 8, b16 >> 8 };
+    for (int k = 0; k < 4; k++) S[k] = s8[k] / 255.0L;
+    rc_real M[4]; for (int k = 0; k < 4; k++) M[k] = mi ? mv[mi] / 255.0L : 1;
+    int mode = mi ? RC_MASK_UNIFIED : RC_MASK_NONE;
+    int exact = rc_is_exact_op(op) && !wide;
+    int integer_blend = rc_is_sep_blend(op) && !wide;
+    int steps = integer_blend ? (mode == RC_MASK_NONE ? 2 : 3) : 1;
+    int blend = rc_is_sep_blend(op) || rc_is_hsl(op);
+    char cfgn[64]; uint64_t nt = 0, h = 0;
+    int dw[4] = { df.aw, df.rw, df.gw, df.bw }, dsft[4] = { df.as, df.rs, df.gs, df.bs };
+    for (int i = 0; i < n; i++) {
+        rc_real r[4];
+        if (blend && !valid_premul(S, D[i])) continue;
+        if (df.is_float) {
+            float *p = (float *)dbuf; float g[4] = { p[4 * i + 3], p[4 * i], p[4 * i + 1], p[4 * i + 2] };
+            if (!rc_real_pixel(op, mode, S, M, D[i], r)) continue;
+            for (int k = 0; k < 4; k++) { rc_real diff = (rc_real)g[k] - r[k]; if (diff < 0) diff = -diff;
+                if (!(diff <= 1e-4L)) { vf_violation("c01-indexed-source-mismatch", "op=%s indexed source whose palette entry is (a,r,g,b)=(%04x,%04x,%04x,%04x) mask=%02x dest rgba_float cfg=[%s] pixel %d: channel %c got %.6f, equations give %.6Lf", rc_op_name(op), a16, r16, g16, b16, mi ? mv[mi] : 0xff, ph_cfg_name(cfg, cfgn, sizeof cfgn), i, "argb"[k], g[k], r[k]); return; } }
+            nt++; continue;
+        }
+        uint32_t got = ph_get_pixel(dbuf, df.bpp, i);
+        if (exact) {
+            uint32_t sv = s8[0] << 24 | s8[1] << 16 | s8[2] << 8 | s8[3], mvv = (uint32_t)(mi ? mv[mi] : 0xff) << 24;
+            uint32_t d8 = D8[i][0] << 24 | D8[i][1] << 16 | D8[i][2] << 8 | D8[i][3];
+            uint32_t exp = ph_from_8888(&df, rc_exact_pixel(op, mode, sv, mvv, d8)), dm = ph_defined_mask(&df);
+            if ((got & dm) != (exp & dm)) { vf_violation("c01-indexed-source-mismatch", "op=%s indexed source whose palette entry is (a,r,g,b)=(%04x,%04x,%04x,%04x) mask=%02x dest %s raw %x cfg=[%s] pixel %d: got %x, equations give %x", rc_op_name(op), a16, r16, g16, b16, mi ? mv[mi] : 0xff, dfn[di], Draw[i], ph_cfg_name(cfg, cfgn, sizeof cfgn), i, got, exp); return; }
+        } else {
+            if (!rc_real_pixel(op, mode, S, M, D[i], r)) continue;
+            for (int k = 0; k < 4; k++) {
+                if (!dw[k]) continue;
+                unsigned u = (got >> dsft[k]) & ((1u << dw[k]) - 1);
+                if (!within(u, r[k], steps, dw[k])) { vf_violation("c01-indexed-source-mismatch", "op=%s indexed source whose palette entry is (a,r,g,b)=(%04x,%04x,%04x,%04x) mask=%02x dest %s raw %x cfg=[%s] pixel %d: channel %c got %u of %u, equations give %.5Lf (= %.3Lf), tolerance %d", rc_op_name(op), a16, r16, g16, b16, mi ? mv[mi] : 0xff, dfn[di], Draw[i], ph_cfg_name(cfg, cfgn, sizeof cfgn), i, "argb"[k], u, (1u << dw[k]) - 1, r[k], rc_clamp01(r[k]) * ((1u << dw[k]) - 1), steps); return; }
+            }
+        }
+        if (got != Draw[i]) nt++;
+        h = vf_mix(h, got);
+    }
+    vf_count_eval((uint64_t)n); vf_count_nontrivial(nt);
+    if (!vf_in_confirm) vf_outcome(vf_mix(h, idx * 53 + (uint64_t)oi + 7));
+}
+
 typedef struct { fmt_ctx c; uint64_t first, count; } fmt_job;
 static fmt_job *fmt_jobs; static int fmt_njobs, fmt_cap; static uint64_t fmt_total;
 static void fmt_add(fmt_ctx *c, uint64_t strips)
@@ -587,6 +666,7 @@ int main(int argc, char **argv)
     vf_space_run("format-triples", fmt_total, fmt_case_all, NULL);
     vf_space_run("shared-storage-source-and-mask", 2 * 5 * 4 * 3 * 3 * 2 * 2 * 2 * 2, alias_case, NULL);
     vf_space_run("solid-fill-sources-16bit", (uint64_t)RC_NOPS * 11 * 3 * 4 * 3 * 2, solid_case, NULL);
+    vf_space_run("indexed-sources-with-translucent-palette-entries", (uint64_t)RC_NOPS * 11 * 3 * 4 * 3 * 2, indexed_src_case, NULL);
     vf_bounds = th ? "exact: 13 ops x {none: full 2^32 (sc,sa,dc,da); unified: (sc,sa,ma) full 2^24 x (dc,da) in B8^2 + alpha cube; CA: (sc,mc,ma) full 2^24 x (sa,dc,da) in B6^3 and (sc,sa,mc) full 2^24 x (dc,da) in T^2 x ma in B6 [default chain; boundary alphabets under general-only]}; "
                      "tolerance: 40 ops x 3 modes x B8^4..6 + full (sa,da) plane; formats: 53 ops x 17x17 format pairs x 5 mask presentations x per-channel {0,1,mid,max-1,max} (first 2048 strips of 128), and again with the source / the mask delivered by the transformed-image fetchers (first 128 strips, mask value fastest), and with REPEAT_NORMAL set on alpha-less destinations / sources (operator reduction); cfgs default+general"
                    : "exact: 13 ops x 3 mask modes x B8^4..6 + (sa,ma,da) full 2^24 cube; tolerance: 40 ops x 3 modes x B8^4..5 (CA: B8^4 x B6^2) + full (sa,da) plane x B6^2; "
